@@ -213,11 +213,13 @@ class Ctx:
         self.draw_r = None
         self.strict_fragile = strict_fragile
         self.reads = set()  # (column) read for this observation (lazy semantics)
+        self.quirks = ()    # names of known engine defects to *mimic* (used only to identify a known finding)
 
     def clone(self, **kw):
         c = Ctx(self.row, self.params, self.free, self.draws, self.rows, dict(self.rv), self.strict_fragile)
         c.draw_r = self.draw_r
         c.reads = self.reads
+        c.quirks = self.quirks
         for k, v in kw.items():
             setattr(c, k, v)
         return c
@@ -299,6 +301,11 @@ def ev(t, ctx):
             raise OutOfDomain('power of a non-positive number')
         if ctx.strict_fragile and val(a) < 1e-9:
             raise OutOfDomain('power of a number smaller than 1e-9')
+        if 'pow2_hessian' in ctx.quirks and isinstance(a, HD) and t[2] == ('num', 2.0):
+            # engine defect (bioExprPowerConstant.cc, exponent == 2): Hessian 2 g g' + 2 h instead of 2 g g' + 2 f h
+            n = len(a.g)
+            return HD(a.v * a.v, [2.0 * a.v * gi for gi in a.g],
+                      [[2.0 * a.g[i] * a.g[j] + 2.0 * a.h[i][j] for j in range(n)] for i in range(n)])
         return _finite(_pow(a, b), '**')
     if k == 'exp':
         a = ev(t[1], ctx)
@@ -565,9 +572,10 @@ def evaluate(t, row=None, params=None, draws=None, rows=None, strict=True):
     return float(val(r))
 
 
-def evaluate_hd(t, free, row=None, params=None, draws=None, rows=None, strict=True):
+def evaluate_hd(t, free, row=None, params=None, draws=None, rows=None, strict=True, quirks=()):
     """(value, gradient list, hessian list of lists) w.r.t. the names in ``free``."""
     ctx = Ctx(row=row, params=params, free=free, draws=draws, rows=rows, strict_fragile=strict)
+    ctx.quirks = tuple(quirks)
     try:
         r = ev(t, ctx)
     except (OverflowError, ZeroDivisionError, ValueError) as e:
